@@ -17,7 +17,7 @@ LEVEL_TEXT = ("generated search against an exact set model; complete enumeration
               "family (two-level trees with <= 2+2 jobs and one outsider, every edge subset up "
               "to 2^12) in the thorough tier")
 LEVEL_NOTE = "trusts the 10-line intersection model"
-RULE = ("cases: trees up to depth 3, <= 12 objects, edges drawn between any two objects of the "
+RULE = ("cases: trees up to depth 3, <= 12 objects, in 1 case in 4 the jobs outside the tree have already been run; edges drawn between any two objects of the "
         "universe (no self-loop). non-trivial: a dangling edge below the top level, or a clean "
         "tree (nothing to remove) that has a nested scheduler; distinct = distinct case digest")
 ASSUMPTIONS = STRUCT_ASSUMPTIONS
